@@ -261,4 +261,96 @@ theorem Seg.level (o : Opts) (hmfd : o.maxFrameDepth ≠ 0) {path : Path} {put :
   have h := Seg.comp (Seg.comp A B (fun rest _ => termFollow_frameHead fc _)) C (fun _ _ => trivial)
   simpa only [List.nil_append, shiftSpec, List.map_nil, List.append_nil] using h
 
+/-! ### nesting to any depth -/
+
+theorem shiftSpec_shiftSpec (a b : Nat) (sp : List (Code × Nat)) : shiftSpec a (shiftSpec b sp) = shiftSpec (a + b) sp := by
+  simp [shiftSpec, List.map_map, Function.comp_def, Nat.add_assoc]
+
+/-- one level of a nesting context: the elements in front of the save frame, its code, the elements behind it -/
+structure Level where
+  pre : List Elem
+  fc : Str
+  post : List Elem
+
+/-- the tokens `T` inside the frames of the context (outermost first) -/
+def nestToks : List Level → List TokSpec → List TokSpec
+  | [], T => T
+  | L :: r, T => (elemsToks L.pre ++ ((.frameHead, L.fc) :: (nestToks r T ++ [(.frameTerm, [])]))) ++ elemsToks L.post
+
+/-- the code of the innermost frame -/
+def innerCode : List Level → Str
+  | [] => []
+  | [L] => L.fc
+  | _ :: L2 :: r => innerCode (L2 :: r)
+
+/-- what the outermost container holds: `start` = its content in front, `inner` = what the segment leaves in the innermost frame;
+    every frame of the context is pruned of empty loops at its terminator -/
+def nestRes (o : Opts) : List Level → List Container × List Loop → List Container × List Loop → List Container × List Loop
+  | [], _, inner => inner
+  | L :: r, start, inner =>
+    denoteElems o.dia o.normKey L.post
+      ((denoteElems o.dia o.normKey L.pre start.1 start.2).1 ++
+        [pruneC (.mk L.fc (nestRes o r ([], []) inner).1 (nestRes o r ([], []) inner).2)])
+      (denoteElems o.dia o.normKey L.pre start.1 start.2).2
+
+/-- the context is well formed: at every level the elements in front and behind are well formed relative to what their container
+    holds, and the frame code is valid and new -/
+def NestOk (o : Opts) : List Level → List Container × List Loop → List Container × List Loop → Prop
+  | [], _, _ => True
+  | L :: r, start, inner =>
+    wfElems o L.pre (normNames o start.2) (start.1.map fun c => o.norm c.code) = true
+    ∧ wfCode L.fc = true
+    ∧ (∀ c ∈ (denoteElems o.dia o.normKey L.pre start.1 start.2).1, codeIs o.norm (o.norm L.fc) c = false)
+    ∧ wfElems o L.post (normNames o (denoteElems o.dia o.normKey L.pre start.1 start.2).2)
+        (((denoteElems o.dia o.normKey L.pre start.1 start.2).1 ++
+          [pruneC (.mk L.fc (nestRes o r ([], []) inner).1 (nestRes o r ([], []) inner).2)]).map fun c => o.norm c.code) = true
+    ∧ NestOk o r ([], []) inner
+
+def nestShift : List Level → Nat
+  | [] => 0
+  | L :: r => (elemsToks L.pre).length + 1 + nestShift r
+
+def nestN : List Level → Nat → Nat
+  | [], n => n
+  | L :: r, n => (elemsToks L.pre).length + (1 + nestN r n + 1) + (elemsToks L.post).length
+
+def nestK : List Level → Nat → Nat
+  | [], k => k
+  | L :: _, _ => L.post.length + (1 + L.pre.length)
+
+def nestNeed : List Level → Nat → Nat → Nat
+  | [], need, _ => need
+  | L :: r, need, k => szElems L.pre + (nestNeed r need k + nestK r k + 2) + szElems L.post
+
+/-- **nesting to any depth**: a segment of the element loop of the innermost save frame of the context is a segment of the
+    outermost container.  (More than one level: save frames must nest, `max_frame_depth ≠ 1`.) -/
+theorem Seg.nest (o : Opts) (hmfd : o.maxFrameDepth ≠ 0) (T : List TokSpec) (fsb : List Container) (lsb : List Loop)
+    (sp : List (Code × Nat)) (n k need : Nat) :
+    ∀ (ctx : List Level), ctx ≠ [] → ∀ {path : Path} {put : Container → Cif} {code : Str} (_hv : View o path put code) (isBlock : Bool)
+      (fs : List Container) (ls : List Loop),
+      (isBlock = true ∨ o.maxFrameDepth ≠ 1) → (ctx.length ≤ 1 ∨ o.maxFrameDepth ≠ 1) → NestOk o ctx (fs, ls) (fsb, lsb) →
+      (∀ {path' : Path} {put' : Container → Cif}, View o path' put' (innerCode ctx) →
+        Seg o path' put' (innerCode ctx) false T [] [] fsb lsb sp n k need termFollow) →
+      Seg o path put code isBlock (nestToks ctx T) fs ls (nestRes o ctx (fs, ls) (fsb, lsb)).1 (nestRes o ctx (fs, ls) (fsb, lsb)).2
+        (shiftSpec (nestShift ctx) sp) (nestN ctx n) (nestK ctx k) (nestNeed ctx need k) termFollow
+  | [], h, _, _, _, _, _, _, _, _, _, _, _ => absurd rfl h
+  | [L], _, path, put, code, hv, isBlock, fs, ls, hlvl, _, hok, hbody => by
+    obtain ⟨h1, h2, h3, h4, _⟩ := hok
+    have := Seg.level o hmfd hv isBlock L.pre L.post L.fc _ _ _ _ fs ls T fsb lsb sp n k need hlvl h1 (fun _ h => h)
+      (fun c hc => List.mem_map.mpr ⟨c, hc, rfl⟩) h2 h3 h4 (fun _ h => h) (fun c hc => List.mem_map.mpr ⟨c, hc, rfl⟩)
+      (hbody (hv.child (denoteElems o.dia o.normKey L.pre fs ls).1 (denoteElems o.dia o.normKey L.pre fs ls).2 L.fc h3))
+    simpa only [nestToks, nestRes, nestShift, nestN, nestK, nestNeed, shiftSpec_shiftSpec, Nat.add_zero] using this
+  | L :: L2 :: r, _, path, put, code, hv, isBlock, fs, ls, hlvl, hdeep, hok, hbody => by
+    obtain ⟨h1, h2, h3, h4, hrest⟩ := hok
+    have hd : o.maxFrameDepth ≠ 1 := by
+      rcases hdeep with h | h
+      · simp at h
+      · exact h
+    have ih := Seg.nest o hmfd T fsb lsb sp n k need (L2 :: r) (by simp)
+      (hv.child (denoteElems o.dia o.normKey L.pre fs ls).1 (denoteElems o.dia o.normKey L.pre fs ls).2 L.fc h3) false [] [] (Or.inr hd) (Or.inr hd) hrest
+      (fun hv' => hbody hv')
+    have := Seg.level o hmfd hv isBlock L.pre L.post L.fc _ _ _ _ fs ls (nestToks (L2 :: r) T) _ _ _ _ _ _ hlvl h1 (fun _ h => h)
+      (fun c hc => List.mem_map.mpr ⟨c, hc, rfl⟩) h2 h3 h4 (fun _ h => h) (fun c hc => List.mem_map.mpr ⟨c, hc, rfl⟩) ih
+    simpa only [nestToks, nestRes, nestShift, nestN, nestK, nestNeed, shiftSpec_shiftSpec, Nat.add_assoc] using this
+
 end CifModel.Model.Parser
